@@ -11,6 +11,12 @@ Theorem C02_gparse_enc : forall t v rest,
   wt t v = true -> gparse t (enc v ++ rest) = Ok (len (enc v), ch v).
 Proof. exact gparse_enc. Qed.
 
+(* conversely, whatever the grammar accepts IS the encoding of a well-typed tree of that height:
+   the grammar's language is exactly { enc v ++ anything | wt t v } *)
+Theorem C02_gparse_sound : forall t r n h,
+  gparse t r = Ok (n, h) -> wf r -> exists v, wt t v = true /\ enc v = take n r /\ ch v = h.
+Proof. exact gparse_sound. Qed.
+
 (* the unbounded parser never runs out of fuel *)
 Theorem C02_gparse_fuel : forall t r, gparse t r <> Err E_FUEL.
 Proof. exact gparse_fuel. Qed.
